@@ -214,7 +214,7 @@ def interp_case(draw):
     mask = [draw(st.integers(0, 2)) == 0 for _ in range(n)]
     return dict(shape=shape, axis=axis, mk=mk, mask=mask, vals=[10 * draw(uf) for _ in range(n)], xval=draw(st.sampled_from([None, 'unsorted', 'descending', 'ascending'])),
                 xs=[draw(uf) for _ in range(n)], const=draw(st.booleans()), mask_dtype=draw(st.sampled_from(['bool', 'i4'])),
-                ydtype=draw(st.sampled_from(['f8', 'f8', 'f4', 'i4', 'i2'])))
+                ydtype=draw(st.sampled_from(['f8', 'f8', 'f4', 'i4', 'i2'])), maskval=draw(st.sampled_from([1, -1, 7, -2147483648])))
 
 
 def interp_body(case):
@@ -257,7 +257,7 @@ def interp_body(case):
             perm = np.argsort(jit, axis=-1)
             xv[...] = np.take_along_axis(np.broadcast_to(base, xv.shape) + 0.0, perm, axis=-1) + 0.3 * jit
         x = np.ascontiguousarray(np.moveaxis(xv, -1, npax))
-    marg = m if case['mask_dtype'] == 'bool' else m.astype('i4')
+    marg = m if case['mask_dtype'] == 'bool' else m.astype('i4') * case.get('maskval', 1)        # any non-zero value flags a sample
     kw = dict(const=case['const'])
     if ndim > 1:
         kw['axis'] = case['axis']
